@@ -30,6 +30,7 @@ type templateVerdict struct {
 	gf        *genFile
 	em        *emission
 	Got, Want []outcome
+	U         []string // the rune classes of the model's universe
 	Skipped   string
 	Globals   []string // package-level variables referenced from emitted rule functions
 }
@@ -49,50 +50,107 @@ func (tv *templateVerdict) project(proj0 func(outcome) string) (missing, extra [
 		}
 		return renumberLoops(k)
 	}
-	g, w := map[string]bool{}, map[string]bool{}
-	for _, o := range tv.Got {
-		if k := proj(o); k != "" {
-			g[k] = true
+	// Outcomes are compared per class of inputs: an outcome carries what its path learnt about
+	// the rune at each position it tested (Know, and the sets inside A{…}(p) terms). Two sides
+	// agree when, for every projected outcome, the inputs under which it can happen are the same.
+	type rect struct {
+		cons   map[string]map[string]bool
+		sample string
+	}
+	collect := func(os []outcome) map[string][]rect {
+		out := map[string][]rect{}
+		for _, o := range os {
+			k := proj(o)
+			if k == "" {
+				continue
+			}
+			key, cons := eraseSets(k, o.Know)
+			out[key] = append(out[key], rect{cons, k})
+		}
+		return out
+	}
+	g, w := collect(tv.Got), collect(tv.Want)
+	for k, rs := range w {
+		if _, ok := g[k]; !ok {
+			missing = append(missing, rs[0].sample)
 		}
 	}
-	for _, o := range tv.Want {
-		if k := proj(o); k != "" {
-			w[k] = true
+	for k, rs := range g {
+		if _, ok := w[k]; !ok {
+			extra = append(extra, rs[0].sample)
 		}
 	}
-	for k := range w {
-		if !g[k] {
-			missing = append(missing, k)
+	uni := tv.U
+	for k, gr := range g {
+		wr, ok := w[k]
+		if !ok {
+			continue
 		}
-	}
-	for k := range g {
-		if !w[k] {
-			extra = append(extra, k)
-		}
-	}
-	if len(missing) > 0 || len(extra) > 0 {
-		// the two sides may only split the possible runes at a position differently
-		// (A{a}(P) and A{z,OTHER}(P) against A{a,z,OTHER}(P)): compare rune by rune
-		ge, we := map[string]bool{}, map[string]bool{}
-		for k := range g {
-			for _, x := range expandRunes(k) {
-				ge[x] = true
+		posSet := map[string]bool{}
+		for _, r := range append(append([]rect{}, gr...), wr...) {
+			for p := range r.cons {
+				posSet[p] = true
 			}
 		}
-		for k := range w {
-			for _, x := range expandRunes(k) {
-				we[x] = true
+		if len(posSet) == 0 || len(uni) == 0 {
+			continue
+		}
+		var ps []string
+		for p := range posSet {
+			ps = append(ps, p)
+		}
+		sort.Strings(ps)
+		size := 1
+		for range ps {
+			size *= len(uni)
+			if size > 30000 {
+				break
 			}
 		}
-		missing, extra = nil, nil
-		for k := range we {
-			if !ge[k] {
-				missing = append(missing, k)
+		if size > 30000 {
+			continue // too many classes to enumerate: compared without the input condition
+		}
+		cover := func(rs []rect) map[string]bool {
+			out := map[string]bool{}
+			for _, r := range rs {
+				cur := []string{""}
+				for _, p := range ps {
+					var opts []string
+					if c, ok := r.cons[p]; ok {
+						for _, u := range uni {
+							if c[u] {
+								opts = append(opts, u)
+							}
+						}
+					} else {
+						opts = uni
+					}
+					var next []string
+					for _, pre := range cur {
+						for _, o := range opts {
+							next = append(next, pre+p+"="+o+" ")
+						}
+					}
+					cur = next
+				}
+				for _, a := range cur {
+					out[a] = true
+				}
+			}
+			return out
+		}
+		gc, wc := cover(gr), cover(wr)
+		nm, ne := 0, 0
+		for a := range wc {
+			if !gc[a] && nm < 2 {
+				nm++
+				missing = append(missing, wr[0].sample+" when the input has "+strings.TrimSpace(a))
 			}
 		}
-		for k := range ge {
-			if !we[k] {
-				extra = append(extra, k)
+		for a := range gc {
+			if !wc[a] && ne < 2 {
+				ne++
+				extra = append(extra, gr[0].sample+" when the input has "+strings.TrimSpace(a))
 			}
 		}
 	}
@@ -183,8 +241,14 @@ func checkModel(r *Repo, ti *tmplInfo, rg *region, m *model, ri int, name string
 	want := sp.ruleOutcomes(m.rules[ri])
 	tv.Und = append(tv.Und, uniq(sp.und)...)
 	got := map[string]outcome{}
+	wantN := map[string]outcome{}
 	for _, o := range want {
 		tv.Want = append(tv.Want, o)
+		wantN[normOutcome(o)] = o
+	}
+	want = wantN
+	for _, r := range u.all() {
+		tv.U = append(tv.U, setStr([]rune{r}))
 	}
 	for _, o := range fl.outs {
 		tv.Got = append(tv.Got, o)
@@ -362,4 +426,74 @@ func (tv *templateVerdict) projectMulti(proj func(outcome) []string) (missing, e
 	sort.Strings(missing)
 	sort.Strings(extra)
 	return
+}
+
+// eraseSets removes the rune sets from the advance terms of a projected outcome
+// (A{a,b}(p) becomes A(p)) and returns them, together with what the path knows
+// about tested positions, as constraints keyed by the erased position term.
+// Positions inside repetitions (invariant terms) are left out: they stand for
+// an arbitrary iteration.
+func eraseSets(s string, know map[string]string) (string, map[string]map[string]bool) {
+	cons := map[string]map[string]bool{}
+	add := func(pos, set string) {
+		if strings.Contains(pos, "loop") || reLoopTag.MatchString(pos) {
+			return
+		}
+		m := map[string]bool{}
+		for _, x := range strings.Split(set, ",") {
+			if x != "" {
+				m[x] = true
+			}
+		}
+		if old, ok := cons[pos]; ok {
+			for x := range old {
+				if !m[x] {
+					delete(old, x)
+				}
+			}
+			return
+		}
+		cons[pos] = m
+	}
+	erase := func(t string) string {
+		for {
+			i := strings.LastIndex(t, "A{")
+			if i < 0 {
+				return t
+			}
+			j := strings.IndexByte(t[i:], '}')
+			if j < 0 || i+j+1 >= len(t) || t[i+j+1] != '(' {
+				// not a well-formed advance term: neutralise it so the loop ends
+				t = t[:i] + "A\u2039" + t[i+2:]
+				continue
+			}
+			set := t[i+2 : i+j]
+			depth, k := 0, i+j+1
+			for ; k < len(t); k++ {
+				if t[k] == '(' {
+					depth++
+				} else if t[k] == ')' {
+					depth--
+					if depth == 0 {
+						break
+					}
+				}
+			}
+			if k >= len(t) {
+				t = t[:i] + "A\u2039" + t[i+2:]
+				continue
+			}
+			arg := t[i+j+2 : k]
+			add(arg, set)
+			full := t[i : k+1]
+			t = strings.ReplaceAll(t, full, "A("+arg+")")
+		}
+	}
+	key := erase(s)
+	for p, set := range know {
+		p = reLoop.ReplaceAllString(p, "loop")
+		p = rePD.ReplaceAllString(p, "$1")
+		add(erase(p), set)
+	}
+	return key, cons
 }
